@@ -176,6 +176,16 @@ class HListArr:
         return HListArr(self.kind, self.a, self.lens, self.n)
 
 
+class HListArr2:
+    """list of 2-D arrays with a common number of columns m: a[k] rows of item k, lens[k] its number of rows."""
+
+    def __init__(self, kind, a, lens, n, m):
+        self.kind, self.a, self.lens, self.n, self.m = kind, a, lens, n, m
+
+    def clone(self):
+        return HListArr2(self.kind, self.a, self.lens, self.n, self.m)
+
+
 class HListTup:
     """list of fixed-arity tuples of scalars; cols[j] : Array(Int -> sort)."""
 
